@@ -86,6 +86,8 @@ def touch(bsp: Any, view: str) -> None:
     elif view == 'ents':
         for e in val.entities:
             e['classname']
+        if len(val.entities) % 2 == 0:
+            val.export(inc_version=False)   # dumping the entities as VMF text is reading, too
     elif val is not None and hasattr(val, '__len__'):
         len(val)
 
